@@ -101,6 +101,25 @@ def frames_signature(err, how):
     return ">".join(reversed(ded[:2])) if len(ded) >= 2 else ded[0]
 
 
+# functions that only drive the phases; the first frame below them names the phase the time is spent in
+DRIVER_FRAMES = {
+    "main", "CPPParser::parse_file", "CPPParser::parse_expr", "CPPParser::parse_type", "parse_cpp", "parse_const_expr",
+    "parse_type", "cppyyparse", "cppyylex", "CPPPreprocessor::get_next_token", "CPPPreprocessor::get_next_token0",
+    "CPPPreprocessor::internal_get_next_token", "CPPPreprocessor::process_directive", "CPPPreprocessor::preprocess_file",
+    "CPPPreprocessor::parse_expr", "CPPPreprocessor::skip_false_if_block", "InterrogateBuilder::build",
+    "InterrogateBuilder::read_command_file", "InterrogateBuilder::do_command", "CPPPreprocessor::get_next_char",
+    "CPPPreprocessor::get", "CPPPreprocessor::skip_whitespace", "CPPPreprocessor::peek",
+}
+
+
+def hang_signature(err):
+    fr = project_frames(err)      # innermost first
+    for f in reversed(fr):
+        if f not in DRIVER_FRAMES:
+            return f
+    return fr[0] if fr else "?"
+
+
 def ubsan_fatal_kind(err):
     for m in UBSAN_LINE.finditer(err):
         if not UBSAN_RECOVERABLE.search(m.group(0)):
@@ -229,39 +248,80 @@ def command_for(b, inp, d):
     return argv, outs
 
 
-def _timeout_for(inp):
+CPU_LIMIT_SMALL, CPU_LIMIT_BIG = 6, 12      # seconds of CPU time (inputs <= 4 kB / larger); confirm run: twice that
+WALL_BACKUP = 25                            # x cpu limit: wall-clock backstop (blocked child / overloaded host)
+
+
+def _cpu_limit_for(inp):
     n = len(inp["d"]) * 3 // 4
-    return 10 if n <= 4096 else 20
+    return CPU_LIMIT_SMALL if n <= 4096 else CPU_LIMIT_BIG
 
 
-def run_abort_on_timeout(argv, timeout, cwd):
-    """like core.run, but a timed-out child first gets SIGABRT so that ASan (handle_abort=1) prints where it was."""
+def _cpu_used(pid):
+    try:
+        with open("/proc/%d/stat" % pid) as f:
+            st = f.read()
+        fields = st[st.rindex(")") + 2:].split()
+        return (int(fields[11]) + int(fields[12])) / float(os.sysconf("SC_CLK_TCK"))
+    except (OSError, ValueError, IndexError):
+        return 0.0
+
+
+def run_cpu(argv, cpu, cwd, capture_out=False):
+    """Run a child under a watchdog on its **CPU time** (load on the shared host must not create hangs):
+    when the child has used `cpu` seconds it gets SIGABRT, so that ASan (handle_abort=1) prints where it was;
+    Result.timed_out is then True.  A wall-clock backstop of WALL_BACKUP*cpu kills a blocked child; that is
+    reported as rc=None/timed_out with err "WALL-BACKSTOP" and is treated as inconclusive by the caller."""
     e = dict(os.environ)
     e.update(core.SAN_ENV)
     e.update(_ENV)
     t0 = time.time()
-    p = subprocess.Popen(argv, stdin=subprocess.DEVNULL, stdout=subprocess.DEVNULL, stderr=subprocess.PIPE, env=e,
-                         cwd=cwd, start_new_session=True)
-    timed_out = False
     try:
-        _, err = p.communicate(timeout=timeout)
-    except subprocess.TimeoutExpired:
-        timed_out = True
+        p = subprocess.Popen(argv, stdin=subprocess.DEVNULL, stdout=subprocess.DEVNULL, stderr=subprocess.PIPE, env=e,
+                             cwd=cwd, start_new_session=True)
+    except OSError as ex:
+        raise core.HarnessError("cannot start %r: %s" % (argv[0], ex))
+    timed_out = False
+    wall_hit = False
+    err = b""
+    poll = 0.05
+    while True:
         try:
-            os.kill(p.pid, signal.SIGABRT)
-        except OSError:
-            pass
-        try:
-            _, err = p.communicate(timeout=20)
+            _, err = p.communicate(timeout=poll)
+            break
         except subprocess.TimeoutExpired:
+            pass
+        poll = min(0.5, poll * 1.5)
+        if _cpu_used(p.pid) >= cpu:
+            timed_out = True
+            try:
+                os.kill(p.pid, signal.SIGABRT)
+            except OSError:
+                pass
+            try:
+                _, err = p.communicate(timeout=30)
+            except subprocess.TimeoutExpired:
+                try:
+                    os.killpg(p.pid, signal.SIGKILL)
+                except OSError:
+                    pass
+                _, err = p.communicate()
+            break
+        if time.time() - t0 > WALL_BACKUP * cpu:
+            timed_out = wall_hit = True
             try:
                 os.killpg(p.pid, signal.SIGKILL)
             except OSError:
                 pass
             _, err = p.communicate()
+            err = b"WALL-BACKSTOP\n"
+            break
     rc = p.returncode
-    return core.Result(rc, None if timed_out else (-rc if rc is not None and rc < 0 else None), "",
-                       err.decode("utf-8", "replace")[-200000:], timed_out, time.time() - t0)
+    err = err.decode("utf-8", "replace")
+    if len(err) > 400000:
+        err = err[:100000] + "\n...\n" + err[-200000:]
+    return core.Result(rc, None if timed_out else (-rc if rc is not None and rc < 0 else None), "", err, timed_out,
+                       time.time() - t0)
 
 
 class Outcome:
@@ -274,16 +334,17 @@ class Outcome:
 def exec_input(b, inp, d, res=None):
     """Run one input on the real binaries and judge it.  -> Outcome (key None = held)."""
     argv, outs = command_for(b, inp, d)
-    to = _timeout_for(inp)
-    r = core.run(argv, timeout=to, cwd=d, env=_ENV)
-    if len(r.err) > 400000:
-        r.err = r.err[:100000] + "\n...\n" + r.err[-200000:]
-    if r.timed_out:
-        # double-confirmed watchdog; the second run is aborted (not killed) so ASan prints the stack
-        r = run_abort_on_timeout(argv, to * 2, d)
-        if not r.timed_out:
-            if res is not None:
-                res.count("timeouts_not_confirmed")
+    cpu = _cpu_limit_for(inp)
+    r = run_cpu(argv, cpu, d)
+    if r.timed_out and "WALL-BACKSTOP" not in r.err:
+        # double-confirmed watchdog: only a second run that burns twice the CPU time is a hang
+        r = run_cpu(argv, cpu * 2, d)
+        if not r.timed_out and res is not None:
+            res.count("timeouts_not_confirmed")
+    if "WALL-BACKSTOP" in r.err:
+        if res is not None:
+            res.count("wall_backstop")
+        return Outcome(None, "wall-backstop", r)
     if res is not None:
         res.count("runs")
         n = len(UBSAN_LINE.findall(r.err))
@@ -301,9 +362,7 @@ def exec_input(b, inp, d, res=None):
     how = classify(r)
     if how is not None:
         if how == "hang":
-            fr = project_frames(r.err)
-            # the innermost project frame common to "where it was when aborted"; loops sit in one function
-            key = "hang:" + (fr[0] if fr else "?")
+            key = "hang:" + hang_signature(r.err)
         else:
             key = how + ":" + frames_signature(r.err, how)
         if res is not None:
@@ -338,6 +397,8 @@ def exec_input(b, inp, d, res=None):
 def minimise(b, inp, key, d, budget=160):
     """ddmin over lines, tokens, then bytes of the mutated file (or of the -D list) keeping the same key."""
     tests = [0]
+    if key.startswith("hang:"):
+        budget = 10          # every failing test costs two watchdog periods
 
     def same(cand):
         tests[0] += 1
@@ -467,7 +528,27 @@ def _printable(b, n=300):
     return s.encode("unicode_escape").decode("ascii") + ("..." if len(b) > n else "")
 
 
+def _report_minimised(res, b, inp, key, d):
+    small = minimise(b, inp, key, d)
+    o2 = exec_input(b, small, d)
+    if o2.key != key:
+        small = inp
+        o2 = exec_input(b, small, d)
+    if o2.key != key:
+        res.inconclusive = "violation %s did not reproduce when re-run" % key
+        res.count("not_reproduced")
+        return
+    tail = [l for l in o2.r.err.splitlines() if l.strip()]
+    res.violation(key, input=small, target=small["t"], mutator=inp["m"], seed_file=inp["s"],
+                  witness=_printable(_unb64(small["d"])),
+                  defines=[_printable(_unb64(x)) for x in small.get("D", [])],
+                  rc=o2.r.rc, stderr_head="\n".join(tail[:12])[:1500],
+                  frames=project_frames(o2.r.err)[:8])
+
+
 def run_case(ctx, case):
+    """case kinds: {"inputs": [literal inputs]} | {"sub": s, "n": n} (generated batch) | {"fuzz": ...} |
+    {"minimise": key, "inputs": [one literal input]} (phase 2: minimise and report an unlisted key)."""
     if case.get("fuzz"):
         return run_fuzz_case(ctx, case)
     res = core.CaseResult()
@@ -483,22 +564,18 @@ def run_case(ctx, case):
         mut0 = inp["m"].split("+")[0]
         mut0 = re.sub(r"_\d+$", "", mut0)
         res.features.add("%s|%s|%s" % (inp["t"], mut0, o.cls))
-        if o.key is not None:
-            full = "C15:" + o.key
-            if full in _known_open() or full in _minimised:
-                res.violation(o.key, input=inp if full not in _known_open() else None, target=inp["t"], mutator=inp["m"])
-                continue
-            _minimised.add(full)
-            small = minimise(b, inp, o.key, d)
-            o2 = exec_input(b, small, d)
-            if o2.key != o.key:
-                small, o2 = inp, o
-            tail = [l for l in o2.r.err.splitlines() if l.strip()]
-            res.violation(o.key, input=small, target=small["t"], mutator=inp["m"], seed_file=inp["s"],
-                          witness=_printable(_unb64(small["d"])),
-                          defines=[_printable(_unb64(x)) for x in small.get("D", [])],
-                          rc=o2.r.rc, stderr_head="\n".join(tail[:12])[:1500],
-                          frames=project_frames(o2.r.err)[:8])
+        if case.get("minimise"):
+            if o.key is None:
+                res.inconclusive = "violation %s did not reproduce when re-run" % case["minimise"]
+                res.count("not_reproduced")
+            else:
+                _report_minimised(res, b, inp, o.key, d)
+        elif o.key is not None:
+            if "C15:" + o.key in _known_open():
+                res.violation(o.key, target=inp["t"], mutator=inp["m"])
+            else:
+                # phase 1 only records the raw input; main() minimises one input per unlisted key
+                res.violation(o.key, raw=True, input=inp)
     if res.sample is None and inputs:
         i0 = inputs[0]
         res.sample = {"target": i0["t"], "mutator": i0["m"], "seed_file": i0["s"],
@@ -591,16 +668,31 @@ def run_fuzz_case(ctx, case):
         if full in _known_open():
             res.violation(o.key, target="pf", mutator="libfuzzer")
             continue
-        small = minimise(b, inp, o.key, d2)
-        o2 = exec_input(b, small, d2)
-        if o2.key != o.key:
-            small, o2 = inp, o
-        tail = [l for l in o2.r.err.splitlines() if l.strip()]
-        res.violation(o.key, input=small, target="pf", mutator="libfuzzer", witness=_printable(_unb64(small["d"])),
-                      rc=o2.r.rc, stderr_head="\n".join(tail[:12])[:1500], frames=project_frames(o2.r.err)[:8])
+        res.violation(o.key, raw=True, input=inp)
     res.sample = {"target": "libfuzzer", "execs": execs, "artifacts": len(arts)}
     shutil.rmtree(d, ignore_errors=True)
     return res
+
+
+def second_phase(chk):
+    """violations recorded raw by phase 1: keep the smallest input per unlisted key, minimise it in its own case."""
+    raw = [v for v in chk.violations if isinstance(v[1], dict) and v[1].get("raw")]
+    if not raw:
+        return
+    chk.violations = [v for v in chk.violations if not (isinstance(v[1], dict) and v[1].get("raw"))]
+    best = {}
+    for key, detail, case in raw:
+        inp = detail["input"]
+        size = len(inp["d"]) + sum(len(x) for x in inp.get("D", []))
+        if key not in best or size < best[key][0]:
+            best[key] = (size, inp)
+    chk.extra["unlisted_keys_phase1"] = {k: sum(1 for v in raw if v[0] == k) for k in sorted(best)}
+    cases = []
+    for i, key in enumerate(sorted(best)):
+        cases.append({"id": "min%d" % i, "minimise": key, "inputs": [best[key][1]]})
+    chk.run_cases(__name__, cases[:96])
+    for c in cases[96:]:
+        chk.report(c["minimise"], {"input": c["inputs"][0], "note": "not minimised (more than 96 unlisted keys)"}, c)
 
 
 def prepare(chk):
@@ -642,6 +734,7 @@ def main(chk):
         fz = [{"id": "fz%d" % k, "fuzz": True, "sub": chk.rng.getrandbits(31), "runs": 150000} for k in range(32)]
         cases = fz + cases
     chk.run_cases(__name__, cases)
+    second_phase(chk)
     c = chk.counters
     chk.extra.update(
         asan_reports=c.get("asan_reports", 0), ubsan_arith_reports=c.get("ubsan_arith_reports", 0),
